@@ -25,9 +25,7 @@ func run(c *core.Ctx) {
 	c.Assume("values whose delivery is C02's subject (empty strings outside bodies, '/', '%' or space in path values, path bytes) and nil-vs-empty collections are excluded exactly as in C04")
 	c.Assume("authentication is not evaluated (NoopAuthenticationFunc); the wire is in-memory (see C02)")
 	only := os.Getenv("VERIF_FAMILY")
-	for _, f := range []check.Family{families.PayloadValidation(c.Thorough()), families.ResultValidation(c.Thorough()), families.PayloadSingle(), families.ResultSingle(),
-		families.PayloadPair(c.Thorough()), families.ResultPair(c.Thorough()), families.ResultStatus(), families.Errors(),
-		families.ValidationIsolated("payload", c.Thorough()), families.ValidationIsolated("result", c.Thorough()), families.SingleIsolated("payload"), families.SingleIsolated("result")} {
+	for _, f := range c14Families(c.Thorough()) {
 		if only != "" && !strings.HasPrefix(f.Name, only) {
 			c.Incomplete("restricted to family " + only + " by VERIF_FAMILY (development aid)")
 			continue
@@ -47,4 +45,39 @@ func run(c *core.Ctx) {
 	}
 }
 
-func main() { core.Main("C14", run, nil) }
+func c14Families(thorough bool) []check.Family {
+	return []check.Family{families.PayloadValidation(thorough), families.ResultValidation(thorough), families.PayloadSingle(), families.ResultSingle(),
+		families.PayloadPair(thorough), families.ResultPair(thorough), families.ResultStatus(), families.Errors(),
+		families.ValidationIsolated("payload", thorough), families.ValidationIsolated("result", thorough), families.SingleIsolated("payload"), families.SingleIsolated("result")}
+}
+
+// replay re-executes the method named in a replay file: the family's corpus is built or reused
+// and the driver is run restricted to that design and method.
+func replay(c *core.Ctx, path string) {
+	var cs struct {
+		Corpus, Design, Method string
+	}
+	if err := core.ReplayCase(path, &cs); err != nil {
+		c.HarnessError("replay: %v", err)
+		return
+	}
+	for _, thorough := range []bool{false, true} {
+		for _, f := range c14Families(thorough) {
+			if f.Name != cs.Corpus {
+				continue
+			}
+			corpus, err := check.BuildFamily(c, f)
+			if err != nil {
+				c.HarnessError("%s: %v", f.Name, err)
+				return
+			}
+			if err := check.RunMode(c, corpus, "C14", "-design", cs.Design, "-method", cs.Method); err != nil {
+				c.HarnessError("%s: %v", f.Name, err)
+			}
+			return
+		}
+	}
+	c.HarnessError("replay: unknown corpus %q", cs.Corpus)
+}
+
+func main() { core.Main("C14", run, replay) }
